@@ -45,6 +45,11 @@ struct has_try_push : std::false_type {};
 template <class Q>
 struct has_try_push<Q, std::void_t<decltype(std::declval<Q&>().try_push(std::declval<UP>()))>> : std::true_type {};
 
+template <class Q>
+struct forwarding_push : std::false_type {};
+template <class T, class... P>
+struct forwarding_push<xenium::vyukov_bounded_queue<T, P...>> : std::true_type {};
+
 // K = 1: exact FIFO.  accept_below: pushes must be accepted while fewer than this many values are stored (<0: always),
 // refuse_at: pushes must be refused when this many are stored (<0: never)
 struct Shape {
@@ -81,6 +86,8 @@ void sweep_run(Q* q, Shape sh, int rand_domain) {
       ref[hi++] = id;
     } else if (v && (v->id != id || cell_get(ALIVE + id) != 1))
       fail("OWNERSHIP", "refused element %d came back damaged", id);
+    else if (!v && forwarding_push<Q>::value)
+      fail("OWNERSHIP", "refused push (forwarding interface) did not leave element %d with the caller", id);
     return ok;
   };
   auto pop = [&]() -> bool {
